@@ -174,7 +174,7 @@ func runC01(c *eng.Ctx, tier string) {
 	// that request's own WhoIs answer (C08's identity rule): nothing remembered
 	// from an earlier request, whose grants may have been withdrawn since
 	include(c, "R-C01-10", func(sc *eng.Ctx) {
-		if gi := sc.P.Method("server", "Server", "getIdentity"); gi != nil {
+		if gi := anchor(sc.P, "server", "(*Server).getIdentity"); gi != nil {
 			c08Identity(sc, gi)
 		} else {
 			sc.Undecided("R-C08-3", nil, 0, "(*server.Server).getIdentity", "anchor does not resolve")
@@ -491,7 +491,7 @@ func canCarryBytes(t types.Type, depth int) bool {
 // c01Identity: R-C01-6.
 func c01Identity(c *eng.Ctx, d *dbInfo) {
 	p := c.P
-	getIdentity := p.Method("server", "Server", "getIdentity")
+	getIdentity := anchor(p, "server", "(*Server).getIdentity")
 	if getIdentity == nil {
 		c.Undecided("R-C01-6", nil, 0, "server.(*Server).getIdentity", "anchor does not resolve")
 		return
